@@ -151,11 +151,11 @@ def run(ctx):
     if r.violation:
         ctx.model_violation("MC_Isolation", r)
     cfg = C04.CFG
-    cases = runner.sharded_tlc(ctx, "GenScen", cfg.format(profile="c08q", shard="@SHARD@", nshards=1), 8 if q else 16,
-                               "GenScen_c08q", timeout=900, simulate=f"num={600 if q else 4000}", depth=30,
+    cases = runner.sharded_tlc(ctx, "GenScen", cfg.format(profile="c08q", shard=0, nshards=1), 8 if q else 16,
+                               "GenScen_c08q", timeout=900, simulate=f"num={60 if q else 600}", depth=30,
                                seed=ctx.seed + 11)
-    sim = runner.sharded_tlc(ctx, "GenScen", cfg.format(profile="sim", shard="@SHARD@", nshards=1), 8 if q else 16,
-                             "GenScen_sim", timeout=900, simulate=f"num={250 if q else 3000}", depth=40,
+    sim = runner.sharded_tlc(ctx, "GenScen", cfg.format(profile="sim", shard=0, nshards=1), 8 if q else 16,
+                             "GenScen_sim", timeout=900, simulate=f"num={25 if q else 400}", depth=40,
                              seed=ctx.seed + 13)
     cases = C04.dedup(cases + sim)
     if not cases:
